@@ -9,7 +9,7 @@ import prog_gen
 import resolved_io
 import vlib
 
-GEN = []
+GEN = ["GenSrcDigest"]
 LEVEL = "translation_validation"
 TRUSTED = [
     "for the THEOREM C01_fragment_preservation (Coq, all programs of the fragment coq/Pres/Frag.v): Coq 8.16.1 kernel, no axioms; the definitions SyltSem (source semantics), LuaCore (Lua 5.3 semantics), Back/IR.v lower, Pres/EmitAst.v emit_ast; the run-time tie 'emit_ast' (parse of the real chunk == pre_block ++ emit_ast code, evaluated by the extracted code: ocaml/pres_driver.ml, OCaml structural equality) and the byte tie of Back/IR.v with the real compiler (C10)",
@@ -22,8 +22,9 @@ TRUSTED = [
 ASSUMPTIONS = ["numbers: ints are unbounded (no 64-bit wrap), floats and division are outside the compared fragment",
                "programs run with --no-std and declare `print` themselves; programs the reference interpreter cannot handle (OUnsup) are skipped and counted"]
 EXPLANATION = ("THEOREM for a fragment + validation beyond it. C01_fragment_preservation (Coq, closed under the global context): for every resolved "
-               "program in the computable fragment coq/Pres/Frag.v (stage 1: print external + start whose body has definitions of int/bool "
-               "expressions, print calls, + - *, comparisons, <=>, and/or/not, unary minus, nested blocks), if the lowering gives IR `code` and "
+               "program in the computable fragment coq/Pres/Frag.v (stage 2: print external + start whose body has definitions of int/bool "
+               "expressions, assignments = += -= *=, print calls, + - *, comparisons, <=>, and/or/not, unary minus, if/elif/else expressions and "
+               "statements, loops with break and continue (loop condition without if-expressions), nested blocks), if the lowering gives IR `code` and "
                "the reference interpreter ends with done/assert/unreachable, then LuaCore running the statements of the real preamble.lua followed "
                "by emit_ast code prints the same lines and ends the same way, for every sufficiently large fuel. The tie component 'emit_ast' checks "
                "on every accepted program that the Lua parser model reads the REAL compiler output as exactly that abstract syntax, and evaluates "
